@@ -192,6 +192,13 @@ def closed_midi_roundtrip():
         s = m.midi_pitch_to_pitch_spelling(p)
         if m.pitch_spelling_to_midi_pitch(*s) != p:
             return False, n, {"input": p, "what": "midi -> spelling -> midi gives %r" % (m.pitch_spelling_to_midi_pitch(*s),)}
+        # the same pitch as a numpy integer of every width a MIDI pitch fits in
+        for dt in (np.uint8, np.int8, np.int16, np.int64):
+            if p > np.iinfo(dt).max:
+                continue
+            s2 = m.midi_pitch_to_pitch_spelling(dt(p))
+            if tuple(s2) != tuple(s):
+                return False, n, {"input": [p, np.dtype(dt).name], "what": "spelling of %s(%d) is %r, of the Python integer %r" % (np.dtype(dt).name, p, tuple(s2), tuple(s))}
     for step in "CDEFGAB":
         for alter in range(-3, 4):
             for octave in range(-1, 10):
@@ -469,8 +476,8 @@ def bounded(b):
         if ok:
             b.case("frequency/array", bool(np.array_equal(np.asarray(fr), arr)), ["arange(128)", a4], "array round trip differs")
         # arrays of every numeric type a pitch or frequency column may have, asked twice: the same answer, and the caller's array as it was
-        for dt in ("float64", "float32", "int64", "int32", "int16"):
-            pa_ = np.array([21, 60, 69, 108, 127], dtype=dt)
+        for dt in ("float64", "float32", "int64", "int32", "int16", "uint8", "int8"):
+            pa_ = np.array([21, 60, 69, 108, 127] if dt != "int8" else [0, 5, 21, 60, 69], dtype=dt) if dt != "uint8" else np.array([0, 5, 8, 60, 127], dtype=dt)
             keep = pa_.copy()
             case_ = ["%s array" % dt, a4]
             ok, f1 = b.guard("frequency/array", case_, lambda: np.array(m.midi_pitch_to_frequency(pa_, a4), dtype=float))
@@ -480,7 +487,7 @@ def bounded(b):
             want = np.array([a4 * 2 ** ((int(p) - 69) / 12) for p in keep])
             b.case("frequency/array", ok and bool(np.array_equal(pa_, keep)) and bool(np.allclose(f1, want, rtol=1e-6)) and bool(np.allclose(f2, want, rtol=1e-6)), case_,
                    "pitches %r (were %r); first answer %r, second %r, equal temperament %r" % (pa_.tolist(), keep.tolist(), np.round(f1, 3).tolist(), None if f2 is None else np.round(f2, 3).tolist(), np.round(want, 3).tolist()))
-            fa_ = np.array(want, dtype="float64" if dt.startswith("int") else dt)
+            fa_ = np.array(want, dtype=dt if dt.startswith("float") else "float64")
             keepf = fa_.copy()
             ok, p1 = b.guard("frequency/array", case_, lambda: np.array(m.frequency_to_midi_pitch(fa_, a4)))
             if ok:
